@@ -117,6 +117,10 @@ JudgeCli(e) ==
                  /\ Report("C05:answer_content", (e.status = "YES") = ref)
                  /\ e.wline => Report("C05:answer_content", /\ InFam(W, cs) /\ Len(e.wargs) = Cardinality(W)
                                                             /\ (IF cred THEN W \cap A # {} ELSE W \cap A = {}))
+                 \* C04 at its second observation point: the `w` line printed by the binaries
+                 /\ inv.cert => Report("C04:printed_certificate_iff_promised", e.wline = promised)
+                 /\ e.wline => Report("C04:printed_certificate", /\ InFam(W, cs) /\ Len(e.wargs) = Cardinality(W) /\ W \subseteq af.args
+                                                                /\ (IF cred THEN W \cap A # {} ELSE W \cap A = {}))
 (* C05 on instances with thousands of arguments: exit status, shape, and polynomial necessary conditions on the printed witness *)
 JudgeCliBig(e) ==
   LET inv == e.inv
@@ -136,6 +140,9 @@ JudgeCliBig(e) ==
        /\ (~e.malformed /\ e.wline) =>
             Report("C05:answer_content", /\ W \subseteq af.args /\ Len(e.wargs) = Cardinality(W) /\ necessary
                                          /\ (inv.kind = "DC" => W \cap A # {}) /\ (inv.kind = "DS" => W \cap A = {}))
+       /\ (~e.malformed /\ e.wline /\ inv.kind # "SE") =>
+            Report("C04:printed_certificate", /\ W \subseteq af.args /\ Len(e.wargs) = Cardinality(W) /\ necessary
+                                              /\ (inv.kind = "DC" => W \cap A # {}) /\ (inv.kind = "DS" => W \cap A = {}))
        /\ inv.log = "off" => Report("C05:nothing_but_the_answer_when_logging_is_off", e.nlog = 0)
 
 JudgeProblems(e) == Report("C05:problems_listed", e.exit = 0 /\ ToSet(e.listed) = Problems /\ Len(e.listed) = 21)
